@@ -126,6 +126,9 @@ typedef struct sim_state {
 	char      detail[400];
 	char      vsite[48];
 	char      ctx_tag[48];
+	int       deferred;
+	char      dclass[48];
+	char      ddetail[400];
 	uint64_t  vtime;
 	uint64_t  hash;
 	int       interesting;
